@@ -52,6 +52,6 @@ theorem hook_panic_contained (env : Env) (he : EnvOk env) (n : Nat) (p : PP) (hp
     (out : SRes) (hout : GS p out) (q : PP)
     (h : catchPanic env n p arg verb "SafeFormatter".toUTF8.toList false out = .ok q) :
     Inv q.buf ∧ q.buf.mode = p.buf.mode ∧ q.override = p.override :=
-  (spec_all env he n).catchPanic p p arg verb _ false out hp hout q h
+  ((spec_all env he n).catchPanic p p arg verb _ false out hp hout).1 q h
 
 end Redact
